@@ -30,12 +30,12 @@ RELS = ["=", ">", ">=", "<", "<="]
 
 def base(hyd, rule, clock):
     return spec([R("R", 50.0), J("J0", 0.0, [[0.0, None, None]]), J("J1", 5.0, [[0.02, None, None]])],
-                [P("p0", "R", "J0"), P("pa", "J0", "J1"), P("pb", "J0", "J1", L=600.0)],
+                [P("p0", "R", "J0"), P("pa", "J0", "J1"), P("pb", "J0", "J1", L=600.0), P("pc", "J0", "J1", L=500.0), P("pd", "J0", "J1", L=800.0)],
                 OPTS(dur=DUR, hyd=hyd, rep="ALL", rule=rule, clock=clock))
 
 
-def ctl(kind, rel, t, value, rule=False, prio=3, els=None):
-    d = {"kind": kind, "rel": rel, "t": t, "link": "pa", "value": value}
+def ctl(kind, rel, t, value, rule=False, prio=3, els=None, link="pa"):
+    d = {"kind": kind, "rel": rel, "t": t, "link": link, "value": value}
     if rule:
         d.update(rule=True, prio=prio)
         if els:
@@ -68,6 +68,12 @@ def single_controls():
     return out
 
 
+def en_exact(t):
+    """True when EPANET's hh:mm:ss -> float hours -> (long)(3600*h) conversion returns t itself"""
+    h, m, sec = t // 3600, (t % 3600) // 60, t % 60
+    return int(3600.0 * (h + m / 60.0 + sec / 3600.0)) == t
+
+
 def canon_ctl(c):
     import json
     return json.dumps(c, sort_keys=True)
@@ -76,7 +82,7 @@ def canon_ctl(c):
 def conflict(a, b):
     """two controls of the same kind and priority that can act in opposite ways at one instant: outside the statement"""
     ra, rb = bool(a.get("rule")), bool(b.get("rule"))
-    if ra != rb:
+    if ra != rb or a["link"] != b["link"]:
         return False
     if a["value"] == b["value"] and a.get("else_value") == b.get("else_value"):
         return False
@@ -116,6 +122,31 @@ def cases(tier):
             s = base(H, 360, clock)
             s["controls"] = [dict(a, name="c0"), dict(b, name="c1")]
             out.append(s)
+    # several targets: a simple control on pa (closing it, or redundantly opening it), a second simple control on pb at the same
+    # instant / later in the same hydraulic step / on the next grid point, with or without a rule on pc that fires at every
+    # rule step (ELSE branch) or whose condition is true.  pd is never targeted, so nothing is ever isolated.
+    t1s = (H + 18 * 60, H + 21 * 60 + 40, H) if tier == "quick" else (H + 18 * 60, H + 21 * 60 + 40, H, 30 * 60, 2 * H)
+    offs = (0, 6 * 60, 15 * 60) if tier == "quick" else (0, 6 * 60, 15 * 60, 100, 30 * 60, H)
+    RS = [None, ctl("time", ">=", 20 * H, "CLOSED", rule=True, els="OPEN", link="pc"), ctl("time", "<", 20 * H, "OPEN", rule=True, link="pc")]
+    if tier == "thorough":
+        RS += [ctl("clock", ">=", 23 * H, "CLOSED", rule=True, els="OPEN", link="pc"), ctl("time", "<=", 2 * H, "CLOSED", rule=True, prio=5, els="OPEN", link="pc")]
+    for t1 in t1s:
+        for xv in ("CLOSED", "OPEN"):
+            for off in offs:
+                for ykind in (("time",) if tier == "quick" else ("time", "clock")):
+                    if not en_exact(t1 + off) or (ykind == "clock" and (t1 + off) % 900):
+                        continue        # EPANET stores times as float hours and truncates: such an instant lands 1 s early there (the reference is validated against EPANET, so these are left out)
+                    for r in RS:
+                        for clock in ((0, 3 * H) if tier == "quick" else (0, 3 * H, 22 * H)):
+                            for hyd in ((H,) if tier == "quick" else (H, 1800)):
+                                s = base(hyd, 360, clock)
+                                x = ctl("time", "=", t1, xv, link="pa")
+                                ty = t1 + off if ykind == "time" else (t1 + off + clock) % DAY
+                                y = ctl(ykind, "=", ty, "CLOSED", link="pb")
+                                s["controls"] = [dict(c, name="c%d" % i) for i, c in enumerate([x, y] + ([r] if r else []))]
+                                if r and r["link"] == "pa" and conflict(x, r):
+                                    continue
+                                out.append(s)
     if tier == "thorough":
         # every CLOSED control x every OPEN control (rules of the OPEN family get priority 5 resp. 1, so that priorities differ)
         Sc = single_controls()
@@ -157,7 +188,22 @@ def cases(tier):
         rs = s["opts"]["rule"]
         off = any((not c.get("rule")) and c["kind"] == "time" and c["t"] % rs for c in s["controls"])
         off = off or any((not c.get("rule")) and c["kind"] == "clock" and ((c["t"] - s["opts"]["clock"]) % DAY) % rs for c in s["controls"])
-        return off and any(c.get("rule") and c["rel"] == "=" for c in s["controls"])
+        if off and any(c.get("rule") and c["rel"] == "=" for c in s["controls"]):
+            return True
+        # the same extra evaluation changes the outcome of a range rule whose bound lies between the last rule-grid instant
+        # and the off-grid instant of a simple control
+        start = s["opts"]["clock"]
+        for c in s["controls"]:
+            if c.get("rule"):
+                continue
+            for tau in fire_instants(c, start, DUR):
+                if tau % rs == 0:
+                    continue
+                g = tau - tau % rs
+                for r in s["controls"]:
+                    if r.get("rule") and r["rel"] != "=" and g > 0 and rule_true(r, tau, g, start) != rule_true(r, g, g - rs, start):
+                        return True
+        return False
     out = [s for s in out if not epanet_extra_instant(s)]
     for s in out:
         s["id"] = {"controls": s["controls"], "clock": s["opts"]["clock"], "hyd": s["opts"]["hyd"], "rule": s["opts"]["rule"]}
@@ -207,12 +253,13 @@ def fire_instants(c, start, dur):
     return out
 
 
-def timeline(s):
-    """returns (events, status_at): events = sorted list of instants at which something acts; status(tau) of link pa"""
+def timeline(s, link="pa"):
+    """returns the list of (instant, new status) of one target link: rules act on the rule grid (whenever the model has any
+    rule), simple controls at their own instants; controls on other links do not matter for this link"""
     o = s["opts"]
     start, rs, dur = o["clock"], o["rule"], o["dur"]
-    simple = [c for c in s["controls"] if not c.get("rule")]
-    rules = [c for c in s["controls"] if c.get("rule")]
+    simple = [c for c in s["controls"] if not c.get("rule") and c["link"] == link]
+    rules = [c for c in s["controls"] if c.get("rule") and c["link"] == link]
     inst = set()
     for c in simple:
         for tau in fire_instants(c, start, dur):
@@ -255,37 +302,40 @@ def en_texts(s):
     for i, c in enumerate(s["controls"]):
         if not c.get("rule"):
             if c["kind"] == "time":
-                ctr.append(" LINK pa %s AT TIME %s" % (c["value"], EN.hms(c["t"])))
+                ctr.append(" LINK %s %s AT TIME %s" % (c["link"], c["value"], EN.hms(c["t"])))
             else:
-                ctr.append(" LINK pa %s AT CLOCKTIME %s" % (c["value"], EN.clock(c["t"])))
+                ctr.append(" LINK %s %s AT CLOCKTIME %s" % (c["link"], c["value"], EN.clock(c["t"])))
         else:
             what = "TIME %s %s" % (c["rel"], EN.hms(c["t"])) if c["kind"] == "time" else "CLOCKTIME %s %s" % (c["rel"], EN.clock(c["t"]))
-            rul.append("RULE r%d\nIF SYSTEM %s\nTHEN PIPE pa STATUS IS %s" % (i, what, c["value"]))
+            rul.append("RULE r%d\nIF SYSTEM %s\nTHEN PIPE %s STATUS IS %s" % (i, what, c["link"], c["value"]))
             if "else_value" in c:
-                rul.append("ELSE PIPE pa STATUS IS %s" % c["else_value"])
+                rul.append("ELSE PIPE %s STATUS IS %s" % (c["link"], c["else_value"]))
             rul.append("PRIORITY %d\n" % c.get("prio", 3))
     return "\n".join(ctr), "\n".join(rul)
 
 
 def run_case(s):
     viol, counts = [], {}
-    changes = timeline(s)
+    targets = sorted(set(c["link"] for c in s["controls"]))
+    changes = {l: timeline(s, l) for l in targets}
+    all_changes = sorted(set(t for l in targets for t, _ in changes[l]))
     # ---- reference vs EPANET (validates the reference; EPANET visits its own set of instants)
     api_only = any("repeat" in c for c in s["controls"])
     if api_only:
         counts["api_only_no_epanet_syntax"] = 1
-        en, en_times = [], [t for t, _ in changes]
+        en, en_times = [], list(all_changes)
     else:
         ct, rt = en_texts(s)
-        en = EN.run_hydraulics(EN.inp_lps(s, ct, rt), links=["pa"])
+        en = EN.run_hydraulics(EN.inp_lps(s, ct, rt), links=targets)
         counts["epanet_instants"] = len(en)
         en_times = [t for t, _, _, _ in en]
     for t, code, lv, _ in en:
-        est = "OPEN" if lv["pa"][0] >= 1 else "CLOSED"
-        if est != status_at(changes, t):
-            return {"viol": [], "harness": "reference timeline says %s at t=%d, EPANET reports %s (controls %s, clock %d, hyd %d, rule %d)" % (
-                status_at(changes, t), t, est, s["controls"], s["opts"]["clock"], s["opts"]["hyd"], s["opts"]["rule"]), "counts": counts}
-    for t, v in changes:
+        for l in targets:
+            est = "OPEN" if lv[l][0] >= 1 else "CLOSED"
+            if est != status_at(changes[l], t):
+                return {"viol": [], "harness": "reference timeline says %s is %s at t=%d, EPANET reports %s (controls %s, clock %d, hyd %d, rule %d)" % (
+                    l, status_at(changes[l], t), t, est, s["controls"], s["opts"]["clock"], s["opts"]["hyd"], s["opts"]["rule"]), "counts": counts}
+    for t in all_changes:
         if t not in en_times:
             return {"viol": [], "harness": "reference timeline changes at t=%d, which EPANET does not visit (%s)" % (t, s["controls"]), "counts": counts}
     # ---- WNTR
@@ -294,27 +344,29 @@ def run_case(s):
         viol.append({"key": "run-fails", "what": "WNTRSimulator did not complete: %s" % r.warnings[:1]})
         return {"viol": viol, "counts": counts}
     kinds = "+".join(sorted(set(("rule-" if c.get("rule") else "simple-") + c["kind"] + ("-repeat" if c.get("repeat") not in (None, False) and c["kind"] == "time" else "") + ("-once" if c.get("repeat") is False else "") + ("" if not c.get("rule") else ":" + c["rel"]) for c in s["controls"])))
-    st = r.link["status"]["pa"]
+    if len(targets) > 1:
+        kinds = "multi-target:" + kinds
     counts["solved_instants"] = len(r.times)
-    for t, v in changes:
-        if t not in r.times:
-            viol.append({"key": "instant-not-solved:%s" % kinds, "what": "the target changes to %s at t=%d (%s) but that instant is not among the solved steps; controls %s, start_clocktime %d" % (v, t, EN.hms(t), s["controls"], s["opts"]["clock"])})
-            break
-    for i, t in enumerate(r.times):
-        exp = status_at(changes, t)
-        got = "OPEN" if st[i] >= 1 else "CLOSED"
-        counts["status_checks"] = counts.get("status_checks", 0) + 1
-        if got != exp:
-            viol.append({"key": "status:%s" % kinds, "what": "at t=%d (%s) pa is reported %s, the controls %s with start_clocktime %d, hyd %d, rule step %d give %s (timeline %s)" % (
-                t, EN.hms(t), got, [_short(c) for c in s["controls"]], s["opts"]["clock"], s["opts"]["hyd"], s["opts"]["rule"], exp, changes[:6])})
-            break
-    extra = [t for t in r.times if t % s["opts"]["hyd"] and t not in [c[0] for c in changes] and t not in en_times]
-    nt = any(t > 0 for t, _ in changes)
-    return {"viol": viol[:2], "nontrivial": nt, "outcome": "%s:%d" % (kinds, min(len(changes), 3)), "counts": counts}
+    for l in targets:
+        st = r.link["status"][l]
+        for t, v in changes[l]:
+            if t not in r.times:
+                viol.append({"key": "instant-not-solved:%s" % kinds, "what": "%s changes to %s at t=%d (%s) but that instant is not among the solved steps %s; controls %s, start_clocktime %d" % (l, v, t, EN.hms(t), [x for x in r.times if x < 3 * H], [_short(c) for c in s["controls"]], s["opts"]["clock"])})
+                break
+        for i, t in enumerate(r.times):
+            exp = status_at(changes[l], t)
+            got = "OPEN" if st[i] >= 1 else "CLOSED"
+            counts["status_checks"] = counts.get("status_checks", 0) + 1
+            if got != exp:
+                viol.append({"key": "status:%s" % kinds, "what": "at t=%d (%s) %s is reported %s, the controls %s with start_clocktime %d, hyd %d, rule step %d give %s (timeline %s)" % (
+                    t, EN.hms(t), l, got, [_short(c) for c in s["controls"]], s["opts"]["clock"], s["opts"]["hyd"], s["opts"]["rule"], exp, changes[l][:6])})
+                break
+    nt = any(t > 0 for t in all_changes)
+    return {"viol": viol[:2], "nontrivial": nt, "outcome": "%s:%d" % (kinds, min(len(all_changes), 3)), "counts": counts}
 
 
 def _short(c):
-    return "%s%s %s %s %s -> %s%s" % ("rule p%d " % c.get("prio", 3) if c.get("rule") else "", c["kind"], c["rel"], EN.hms(c["t"]), "", c["value"], (" else " + c["else_value"]) if "else_value" in c else "")
+    return "%s%s %s %s : %s -> %s%s" % ("rule p%d " % c.get("prio", 3) if c.get("rule") else "", c["kind"], c["rel"], EN.hms(c["t"]), c["link"], c["value"], (" else " + c["else_value"]) if "else_value" in c else "")
 
 
 def run(run_, tier, seed):
